@@ -538,6 +538,11 @@ def run(ctx):
     _premises.tree_editor(ctx)
     _premises.deep_copies(ctx)
     _premises.refresh(ctx)
+    # the data order of the retained path is drawn uniformly from the orders compatible with the tree and scored
+    # with the matching density (same rule object as C09.P1-P4)
+    from . import C09
+
+    imported(ctx, C09.rule_P)
 
 
 # Self-test catalogue: one textual edit each, applied to a scratch copy (see selftest.py).
